@@ -6,7 +6,7 @@ mkdir -p /tmp/seedrun
 git -C /repo worktree remove --force $d >/dev/null 2>&1; rm -rf $d
 git -C /repo worktree add -q --detach $d HEAD || exit 2
 git -C $d apply $patch || { echo "patch does not apply"; exit 2; }
-VERIF_REPO=$d /verif/bin/hv.new check $prop "$@" > /tmp/seedrun/$name.log 2>&1
+VERIF_EVIDENCE_DIR=/tmp/evidence_seed VERIF_REPO=$d /verif/bin/hv check $prop "$@" > /tmp/seedrun/$name.log 2>&1
 rc=$?
 echo "$name $prop exit=$rc"
 grep -E "^VIOLATION|^  harness=|^  data race|^INCONCLUSIVE|^KNOWN" /tmp/seedrun/$name.log | cut -c1-220 | head -12
